@@ -19,4 +19,7 @@ MUTANTS = [
          old="                is_required = prop_name in schema.required\n\n                # Sanitize", new="                is_required = prop_name in schema.required and not prop_schema.is_nullable\n\n                # Sanitize"),
     dict(name="registration-skips-enums", file=SP, expect="R2.6",
          old="            and not is_synthetic_primitive\n        )\n        if should_register and schema_name:", new="            and not is_synthetic_primitive\n            and not schema_ir.enum\n        )\n        if should_register and schema_name:"),
+    dict(name="parse-leaves-tracker-entered", file="core/parsing/schema_parser.py", expect="R2.7",
+         old="    finally:\n        context.unified_exit_schema(schema_name)\n",
+         new="    finally:\n        pass\n"),
 ]
